@@ -1,7 +1,7 @@
 (* C19 -- non-vacuity: concrete inputs meet the hypotheses of the theorems. *)
-From Coq Require Import QArith Qcanon ZArith List Arith Bool PrimFloat.
+From Coq Require Import QArith Qcanon ZArith List Arith Bool PrimFloat Lia.
 From Verif.lib Require Import Bsp NpCore NpQ NpF.
-From Verif.C19 Require Import Model Proofs FloatProofs.
+From Verif.C19 Require Import Model Proofs Proofs2 FloatProofs.
 Import ListNotations.
 Open Scope Qc_scope.
 
@@ -45,3 +45,19 @@ Proof. split; [left; reflexivity|reflexivity]. Qed.
 Example ex_float : length (mesh_f (make_knots_f 2 0 1 49 1)) = 50%nat
                    /\ length (mesh_f (make_knots_old_f 2 0 1 49 1)) = 51%nat.
 Proof. split; vm_compute; reflexivity. Qed.
+
+(* hypotheses of greville_in_support / refine_uniform_halves are met by ex_kv *)
+Example ex_grev_hyp : (1 <= 2)%nat /\ kv_valid ex_kv = true /\ (4 < numdofs ex_kv 2)%nat /\ ex_kv <> [].
+Proof.
+  split; [lia|]. split; [vm_compute; reflexivity|]. split; [vm_compute; lia|discriminate].
+Qed.
+Example ex_halves : map this (Proofs2.interleave (mesh ex_kv)) = [0; 1 # 8; 1 # 4; 3 # 8; 1 # 2; 5 # 8; 3 # 4; 7 # 8; 1]%Q.
+Proof. vm_compute. reflexivity. Qed.
+
+(* derivative_spline: ex_kv meets kv_ok; the two sides computed on a concrete input *)
+Example ex_deriv_eval :
+  let c := map (fun z => q z 1) [1; 2; 4; 8; 16; 32; 64; 128; 256]%Z in
+  length c = numdofs ex_kv 2 /\
+  spline_ev (derivative_kv ex_kv) 1 (derivative_coeffs ex_kv 2 c) (q 3 8) = spline_dev ex_kv 2 c (q 3 8) /\
+  this (spline_dev ex_kv 2 c (q 3 8)) = 48%Q.
+Proof. repeat split; vm_compute; reflexivity. Qed.
